@@ -77,3 +77,20 @@ def register(w):
         ensures=[("primitive_receives_max_upper_minus_lower_0_and_the_offset", post_fori)], ret=Ref(OPQ), props=["C06"], opaque_externals=True,
         witnesses=["C06_fori_trip_counts"],
     ))
+
+    # ---- bounded stand-in (never counted as proved): Loop/Scan body construction is not under contract
+    def bounded_loops(world, c, out):
+        import time
+        from pyvc.run import run_witness
+        t0 = time.time()
+        holds, detail = run_witness("C06_loop_trip_family", timeout=900)
+        d = {"oid": "jax2onnx.plugins.jax.lax:while_loop+scan+fori_loop#bounded:exported_loops_agree_with_jax_for_every_trip_count_of_the_family", "kind": "bounded",
+             "status": "discharged" if holds else ("refuted" if holds is False else "unknown"), "backend": "enumerated", "time": time.time() - t0, "instances": 1, "trivial": 0,
+             "bounded": "6 programs (scalar while_loop with 0/1/2/5 trips, vmapped while_loop with lanes stopping at different iterations and a non-monotone predicate, fori_loop with a captured array, scan of length 1 and 4 with stacked outputs, while_loop nested in fori_loop), 13 evaluations",
+             "note": f"the construction of Loop/Scan bodies (while_loop.py, scan.py, fori_loop._build_body_graph) is not under contract; the real export is run on an enumerated family and compared with JAX; {detail}"[:500]}
+        if holds is False:
+            d.update(args={"witness": "C06_loop_trip_family"}, replay={"reproduced": True, "detail": detail}, formula="", model=detail)
+        out["obls"].append(d)
+        out["paths"], out["time"] = 1, time.time() - t0
+        return out
+    w.add_contract(Contract("jax2onnx.plugins.jax.lax:<bounded-loops>", kind="custom", custom=bounded_loops, props=["C06"], witnesses=["C06_loop_trip_family"]))
